@@ -57,6 +57,10 @@ Step ==
               r.ok => r.post.len = Cardinality(b.live) + 2 - (IF b.live = {} THEN 0 ELSE 1))
        \* a set padding bit must be refused (there is one iff n % 8 # 0)
        /\ Chk("C11", "padding-bit-accepted", r.pad # "accepted")
+       \* so must an identifier of the wrong width (WireAccepts: Len = NBytes(n)) and a repeated table
+       /\ Chk("C11", "identifier-of-wrong-width-accepted",
+              \A kd \in {"short", "long"} : kd \in DOMAIN r.bad => r.bad[kd] # "accepted")
+       /\ Chk("C11", "repeated-table-accepted", "dup" \in DOMAIN r.bad => r.bad["dup"] # "accepted")
        /\ Chk("HARNESS", "padding-case-missing",
               (E.enc = "json" /\ n % 8 # 0 /\ b.tabs # {}) => r.pad # "na")
 Init == l = 1
